@@ -147,13 +147,31 @@ func concScenario(cfg Cfg, clients int) *vsched.Scenario {
 	return &vsched.Scenario{Name: fmt.Sprintf("stale-%dclients", clients), Body: body, Check: check, Outcome: outcome, MaxSteps: 1 << 16, HorizonNs: int64(10 * time.Minute)}
 }
 
-func concurrency(cfg Cfg, thorough bool, deadline time.Time, wo *workerOut) map[string]any {
-	// two configurations: stale window 60 s, and unbounded window with a size limit
-	if cfg.Fixed || !cfg.Opt || !((cfg.Ttl == 60 && cfg.Max == 0) || (cfg.Ttl == 0 && cfg.Max == 2)) {
-		return nil
-	}
-	// The upstream answers without delay in this scenario, so the refresh thread is an ordinary runnable thread and
-	// every interleaving of it with the clients is a matter of preemptions only (no timer deviations needed).
+// concResult is one (configuration, scenario) explored by one shard.
+type concResult struct {
+	Cfg        string         `json:"config"`
+	Scenario   string         `json:"scenario"`
+	Bounds     []vsched.Bound `json:"bounds"`
+	Executions int64          `json:"executions"`
+	Decisions  int64          `json:"decisions"`
+	Outcomes   []string       `json:"outcome_hashes"`
+	Exhaustive bool           `json:"exhaustive"`
+	MaxDepth   int            `json:"max_depth"`
+	Skipped    string         `json:"skipped,omitempty"`
+}
+
+// staleServedAtAll: sequential probe — is an expired answer served at once in this configuration? (If not, the BFS
+// reports it; the concurrent scenario presupposes it.)
+func staleServedAtAll(cfg Cfg) bool {
+	sc := concScenario(cfg, 1)
+	r := vsched.Run(sc.Body, vsched.Options{MaxSteps: sc.MaxSteps, HorizonNs: sc.HorizonNs})
+	sig, _ := sc.Check(r)
+	return sig == ""
+}
+
+// concurrency runs shard i/n of the schedule exploration of every (configuration, scenario) of the single-refresh
+// clause; all worker processes take part once their own BFS is done.
+func concurrency(shardI, shardN int, thorough bool, deadline time.Time, wo *workerOut) []concResult {
 	type spec struct {
 		clients int
 		bounds  []vsched.Bound
@@ -162,37 +180,33 @@ func concurrency(cfg Cfg, thorough bool, deadline time.Time, wo *workerOut) map[
 	if thorough {
 		specs = []spec{{3, []vsched.Bound{{0, 0}, {1, 0}}}, {2, []vsched.Bound{{0, 0}, {1, 0}, {2, 0}}}}
 	}
-	var execs, steps int64
-	outcomes := 0
-	exhaustive := true
-	var names []string
-	var allBounds [][]vsched.Bound
-	maxDepth := 0
-	for _, sp := range specs {
-		sc := concScenario(cfg, sp.clients)
-		e := &vsched.Explorer{Sc: sc, Bounds: sp.bounds, Deadline: deadline}
-		st := e.Explore()
-		for k := range st.Violations {
-			v := st.Violations[k]
-			if strings.HasPrefix(v.Sig, "HARNESS") || !e.Confirm(&v, 5) {
-				fmt.Fprintf(os.Stderr, "C08: schedule exploration: non-reproducible or harness failure: %s\n", v.Sig)
-				os.Exit(2)
+	var out []concResult
+	// two configurations: stale window 60 s, and unbounded window with a size limit. The upstream answers without
+	// delay in these scenarios, so the refresh thread is an ordinary runnable thread and every interleaving of it
+	// with the clients is a matter of preemptions only (no timer deviations needed).
+	for _, cfg := range []Cfg{{Opt: true, Ttl: 0, Max: 2}, {Opt: true, Ttl: 60, Max: 0}} {
+		if !staleServedAtAll(cfg) {
+			out = append(out, concResult{Cfg: cfg.String(), Skipped: "expired answers are not served at once in this configuration (reported by the history search)"})
+			continue
+		}
+		for _, sp := range specs {
+			sc := concScenario(cfg, sp.clients)
+			e := &vsched.Explorer{Sc: sc, Bounds: sp.bounds, Deadline: deadline, ShardI: shardI, ShardN: shardN}
+			st := e.Explore()
+			for k := range st.Violations {
+				v := st.Violations[k]
+				if strings.HasPrefix(v.Sig, "HARNESS") || !e.Confirm(&v, 5) {
+					fmt.Fprintf(os.Stderr, "C08: schedule exploration: non-reproducible or harness failure: %s\n", v.Sig)
+					os.Exit(2)
+				}
+				wo.Viols = append(wo.Viols, violOut{Class: "schedule", Sig: fmt.Sprintf("config{%s} scenario=%s schedule-bound=%v: %s", cfg, sc.Name, v.Bound, v.Sig),
+					Detail: map[string]any{"config": cfg, "scenario": sc.Name, "schedule": v.Schedule, "bound": v.Bound, "detail": v.Detail, "trace": v.Trace}})
 			}
-			wo.Viols = append(wo.Viols, violOut{Class: "schedule", Sig: fmt.Sprintf("config{%s} scenario=%s schedule-bound=%v: %s", cfg, sc.Name, v.Bound, v.Sig),
-				Detail: map[string]any{"config": cfg, "scenario": sc.Name, "schedule": v.Schedule, "bound": v.Bound, "detail": v.Detail, "trace": v.Trace}})
-		}
-		if !st.Exhaustive {
-			exhaustive = false
-			wo.CapHit = append(wo.CapHit, fmt.Sprintf("time budget reached in schedule exploration %s (%s)", sc.Name, cfg))
-		}
-		execs += st.Executions
-		steps += st.Steps
-		outcomes += len(st.OutcomeHashes)
-		names = append(names, sc.Name)
-		allBounds = append(allBounds, sp.bounds)
-		if st.MaxDepth > maxDepth {
-			maxDepth = st.MaxDepth
+			if !st.Exhaustive {
+				wo.CapHit = append(wo.CapHit, fmt.Sprintf("time budget reached in schedule exploration %s (%s)", sc.Name, cfg))
+			}
+			out = append(out, concResult{Cfg: cfg.String(), Scenario: sc.Name, Bounds: sp.bounds, Executions: st.Executions, Decisions: st.Steps, Outcomes: st.OutcomeHashes, Exhaustive: st.Exhaustive, MaxDepth: st.MaxDepth})
 		}
 	}
-	return map[string]any{"scenarios": names, "executions": execs, "decisions": steps, "distinct_outcomes": outcomes, "bounds": allBounds, "exhaustive_within_bounds": exhaustive, "max_depth": maxDepth}
+	return out
 }
